@@ -336,6 +336,10 @@ impl Spec {
             ids.sort();
             ids.dedup();
             let mut pool: Vec<i32> = vec![0, 1, 2, 3, 4, 5, 6, 8, 9, 10, 11, 40, 100, 1000, -1, -2, -3, -10, -2147483648, 2147483647, 12345];
+            if r.chance(1, 3) {
+                // neighbouring ids beyond 2^24 first: f32 cannot tell them apart
+                pool = vec![16777216, 16777217, 16777218, 2000000001, 2000000002, -2147483648, -2147483647, 2147483646, 2147483647, 16777219, 33554432, 33554433];
+            }
             r.shuffle(&mut pool);
             let map: std::collections::BTreeMap<i32, i32> = ids.iter().enumerate().map(|(i, id)| (*id, pool[i % pool.len()])).collect();
             for l in s.lines.iter_mut() {
